@@ -117,6 +117,7 @@ void init_macros(void);
 void define_macro(char *name, char *buf);
 void undef_macro(char *name);
 Token *preprocess(Token *tok);
+void join_adjacent_string_literals(Token *tok);
 
 //
 // parse.c
